@@ -179,35 +179,56 @@ fn values(g: &mut Gen, st: &mut Stats) -> CaseResult {
     t[g.below(t.len())](g, st)
 }
 
-/// `ArrayIter` / `MapIter` over iterators with exact and inexact size hints.
+/// An iterator that reports a chosen (truthful) `size_hint`.
+#[derive(Clone)]
+struct Hinted<I> { it: I, low: usize, up: Option<usize> }
+impl<I: Iterator> Iterator for Hinted<I> {
+    type Item = I::Item;
+    fn next(&mut self) -> Option<I::Item> { self.it.next() }
+    fn size_hint(&self) -> (usize, Option<usize>) { (self.low, self.up) }
+}
+
+/// A truthful hint for an iterator of exactly `n` items: lower bound <= n <= upper bound (or no upper bound).
+fn gen_hint(g: &mut Gen, n: usize) -> (usize, Option<usize>, &'static str) {
+    match g.below(8) {
+        0 | 1 => (n, Some(n), "exact"),
+        2 => (0, None, "(0,None)"),
+        3 => (g.below(n + 1), None, "(k,None)"),
+        4 => (n, None, "(n,None)"),
+        5 => (0, Some(n), if n == 0 { "exact" } else { "(0,Some(n))" }),
+        6 => (n, Some(n + 1 + g.below(3)), "(n,Some(n+d))"),
+        _ => (g.below(n + 1), Some(*g.pick(&[usize::MAX, n + 1, n + 1000])), "(k,Some(m))")
+    }
+}
+
+/// `ArrayIter` / `MapIter` over iterators with every kind of truthful size hint (std adaptors and a wrapper that
+/// reports a generated hint): definite header iff the hint is exact, otherwise indefinite with a break.
 fn iter_encoders(g: &mut Gen, st: &mut Stats) -> CaseResult {
     st.eval();
     let n = g.len(300);
     let xs: Vec<u32> = (0 .. n).map(|_| g.u32()).collect();
-    let exact = g.bool();
     let is_map = g.bool();
-    let (out, want) = if !is_map {
-        let want_items: Vec<Item> = xs.iter().map(|x| Item::uint(*x as u64)).collect();
-        if exact {
-            (minicbor::to_vec(ArrayIter::new(xs.iter())), Item::array(want_items))
-        } else {
-            // `filter` has size_hint (0, Some(n)): inexact unless n == 0
-            let it = xs.iter().filter(|_| true);
-            let w = if n == 0 { Item::array(want_items) } else { Item::Array(want_items, None) };
-            (minicbor::to_vec(ArrayIter::new(it)), w)
-        }
-    } else {
-        let want_items: Vec<(Item, Item)> = xs.iter().enumerate().map(|(i, x)| (Item::uint(i as u64), Item::uint(*x as u64))).collect();
-        if exact {
-            (minicbor::to_vec(MapIter::new(xs.iter().enumerate())), Item::map(want_items))
-        } else {
-            let it = xs.iter().enumerate().filter(|_| true);
-            let w = if n == 0 { Item::map(want_items) } else { Item::Map(want_items, None) };
-            (minicbor::to_vec(MapIter::new(it)), w)
-        }
+    let style = g.below(6);
+    let arr_items = || -> Vec<Item> { xs.iter().map(|x| Item::uint(*x as u64)).collect() };
+    let map_items = || -> Vec<(Item, Item)> { xs.iter().enumerate().map(|(i, x)| (Item::uint(i as u64), Item::uint(*x as u64))).collect() };
+    let (out, exact, label): (_, bool, &'static str) = match (is_map, style) {
+        (false, 0) => (minicbor::to_vec(ArrayIter::new(xs.iter())), true, "slice-iter"),
+        // `filter` has size_hint (0, Some(n)): inexact unless n == 0
+        (false, 1) => (minicbor::to_vec(ArrayIter::new(xs.iter().filter(|_| true))), n == 0, "filter"),
+        // `flat_map` over one-element vectors has size_hint (0, None) unless the outer iterator is exhausted
+        (false, 2) => (minicbor::to_vec(ArrayIter::new(xs.iter().flat_map(|x| vec![*x]))), n == 0, "flat_map"),
+        (false, _) => { let (low, up, l) = gen_hint(g, n); (minicbor::to_vec(ArrayIter::new(Hinted { it: xs.iter(), low, up })), Some(low) == up, l) }
+        (true, 0) => (minicbor::to_vec(MapIter::new(xs.iter().enumerate())), true, "slice-iter"),
+        (true, 1) => (minicbor::to_vec(MapIter::new(xs.iter().enumerate().filter(|_| true))), n == 0, "filter"),
+        (true, 2) => (minicbor::to_vec(MapIter::new(xs.iter().enumerate().flat_map(|kv| vec![kv]))), n == 0, "flat_map"),
+        (true, _) => { let (low, up, l) = gen_hint(g, n); (minicbor::to_vec(MapIter::new(Hinted { it: xs.iter().enumerate(), low, up })), Some(low) == up, l) }
+    };
+    let want = match (is_map, exact) {
+        (false, true) => Item::array(arr_items()), (false, false) => Item::Array(arr_items(), None),
+        (true, true) => Item::map(map_items()), (true, false) => Item::Map(map_items(), None)
     };
     let out = out.map_err(|e| vcore::Fail::new("encode-error", e.to_string()))?;
-    st.class(match (is_map, exact) { (false, true) => "ArrayIter/exact", (false, false) => "ArrayIter/inexact", (true, true) => "MapIter/exact", (true, false) => "MapIter/inexact" });
+    st.class(&format!("{}/{}/{}", if is_map { "MapIter" } else { "ArrayIter" }, label, if exact { "definite" } else { "indefinite" }));
     st.nontrivial(hash_of(&(&out, exact, is_map)));
     expect_bytes(if is_map { "MapIter" } else { "ArrayIter" }, &out, &want)
 }
